@@ -58,7 +58,12 @@ META = {
         "Pyoda.GenAgree.C01.gen_Isl_toMonth_eq", "Pyoda.GenAgree.C01.gen_Isl_split_eq",
         "Pyoda.GenAgree.C01.gen_Pers_len_eq", "Pyoda.GenAgree.C01.gen_Pers_dim_eq",
         "Pyoda.GenAgree.C01.gen_Pers_toMonth_eq", "Pyoda.GenAgree.C01.gen_Pers_split_eq",
-        "Pyoda.GenAgree.C01.gen_Pers_leapArithmetic_eq",
+        "Pyoda.GenAgree.C01.gen_Pers_leapArithmetic_eq", "Pyoda.GenAgree.C01.gen_Calc_minYear_eq",
+        "Pyoda.GenAgree.C01.gen_Calc_maxYear_eq", "Pyoda.GenAgree.C01.gen_Calc_daysAtStartOfYear1_eq",
+        "Pyoda.GenAgree.C01.gen_Calc_getYear_loop1_eq", "Pyoda.GenAgree.C01.gen_Calc_getYear_loop2_agree",
+        "Pyoda.GenAgree.C01.gen_Calc_getYear_agree", "Pyoda.GenAgree.C01.gen_Calc_getYearMonthDay_eq",
+        "Pyoda.GenAgree.C01.gen_Calc_ymdOfDays_agree", "Pyoda.GenAgree.C01.gen_Calc_daysOfYmdRaw_eq",
+        "Pyoda.GenAgree.C01.gen_Calc_validate_eq", "Pyoda.GenAgree.C01.gen_Calc_dayOfYear_eq",
     ],
     "trusted_base": [
         "CPython int arithmetic; _towards_zero_division exact for the (< 10^9) operands of the calendar code",
@@ -78,9 +83,13 @@ META = {
         "each calculator; class-level tables built by a static function at class creation are evaluated from the source by the "
         "translator's small interpreter (for/range/append/yield) and read with pyIndex (IndexError outside, negative index wraps); "
         "helpers _towards_zero_division -> pyTdiv, _csharp_modulo -> csharpMod, _check_argument_range -> checkRange, "
-        "_YearMonthDay._ctor -> a plain triple (packing: pack_unpack). Not translated (correspondence only): the year search _get_year "
-        "(while loops), the 1900-2100 table paths of the Gregorian calculator (tables filled in __init__), the Islamic and Persian "
-        "simple/astronomical leap rules (bit tests), Islamic year starts (for loop), Hebrew, Um Al Qura, Badi",
+        "_YearMonthDay._ctor and its _year/_month/_day accessors -> a plain triple (packing: pack_unpack). The calendar-independent layer "
+        "_YearMonthDayCalculator (_get_year with its two while loops as fuel-recursive functions, fuel 64 = yearFuel, out of fuel = !dom; "
+        "_get_year_month_day_from_days_since_epoch, _get_days_since_epoch, _validate_year_month_day, _get_day_of_year) is translated with "
+        "its virtual members as abstract callees instantiated by the model record c : Calc; gen_Calc_getYear_agree / ymdOfDays_agree are "
+        "equalities up to the kind of error when the fuel runs out. Not translated (correspondence only): the year-start cache, the "
+        "1900-2100 table paths of the Gregorian calculator (tables filled in __init__), the Islamic and Persian simple/astronomical leap "
+        "rules (bit tests), Islamic year starts (for loop), Hebrew, Um Al Qura, Badi",
     ],
     "partial": [],
     "rule": "year tables: every year of every calendar (exhaustive); days: first/last days of every year, sampled month "
